@@ -56,6 +56,10 @@ type Op08 struct {
 	DelErrAt   int      `json:"del_err_at"`
 	DelErrno   int      `json:"del_errno,omitempty"`
 	Noise      []Noise  `json:"noise,omitempty"`
+	// Batch: before this operation the same client issues one NoWait setter per entry (the kernel's errno for
+	// it) and drains their acknowledgements with WaitForPendingACKs (one call per refused request, plus one):
+	// what is left of that must not change the verdict of the operation that follows
+	Batch []int `json:"batch,omitempty"`
 }
 
 type C08Case struct {
@@ -68,6 +72,9 @@ func (c C08Case) Describe() string {
 	fmt.Fprintf(&b, "start sequence %d\n", c.StartSeq)
 	for i, o := range c.Ops {
 		fmt.Fprintf(&b, " %d %s fault=%q/%d arg=%d/%v ack-errno=%d foreign=%v status=%x rules=%x rule=%x delErrAt=%d delErrno=%d noise=%v\n", i, o.Op, o.Fault, o.FaultErrno, o.U32, o.Bool, o.Errno, o.Foreign, o.Status, o.Rules, o.Rule, o.DelErrAt, o.DelErrno, o.Noise)
+		if len(o.Batch) > 0 {
+			fmt.Fprintf(&b, "   (after a NoWait batch with errnos %v drained by WaitForPendingACKs)\n", o.Batch)
+		}
 	}
 	return b.String()
 }
@@ -129,6 +136,9 @@ func genOp08(t *rapid.T, eagainBudget *int) Op08 {
 		o.DelErrno = rapid.OneOf(rapid.SampledFrom(errnoChoices), rapid.IntRange(1, 133)).Draw(t, "delerrno")
 	}
 	o.Noise = genNoise(t, eagainBudget)
+	if rapid.IntRange(0, 5).Draw(t, "batch") == 0 {
+		o.Batch = rapid.SliceOfN(rapid.SampledFrom([]int{0, 0, int(syscall.EPERM), int(syscall.EINVAL), 0, int(syscall.EBUSY)}), 1, 5).Draw(t, "batcherrnos")
+	}
 	return o
 }
 
@@ -243,11 +253,54 @@ func statusBytes(s *libaudit.AuditStatus) []byte {
 	return b
 }
 
+// noWaitBatch: NoWait setters and the calls that drain their acknowledgements (the model is C17's: every call
+// consumes the pending acknowledgements in order up to and including the first one that carries an error).
+func noWaitBatch(k *simk.K, cl *libaudit.AuditClient, errnos []int, op int) error {
+	k.OnSend, k.Queue, k.SendErr = nil, nil, nil
+	keep := k.KeepQueue
+	k.KeepQueue = true
+	defer func() { k.KeepQueue = keep }()
+	var seqs []uint32
+	for j := range errnos {
+		if err := cl.SetRateLimit(uint32(j), libaudit.NoWait); err != nil {
+			return fmt.Errorf("op %d: NoWait setter %d of the batch before it: %v", op, j, err)
+		}
+		seqs = append(seqs, k.Seq)
+	}
+	for j, e := range errnos {
+		k.Push(simk.Ack(seqs[j], e, uint16(uapi.A("AUDIT_SET"))))
+	}
+	for pending := errnos; len(pending) > 0; {
+		want, n := 0, len(pending)
+		for j, e := range pending {
+			if e != 0 {
+				want, n = e, j+1
+				break
+			}
+		}
+		err := cl.WaitForPendingACKs()
+		if (want == 0) != (err == nil) || (want != 0 && !errors.Is(err, syscall.Errno(want))) {
+			return fmt.Errorf("op %d: WaitForPendingACKs with pending acknowledgements %v returned %v", op, pending, err)
+		}
+		pending = pending[n:]
+	}
+	if len(k.Queue) != 0 {
+		return fmt.Errorf("op %d: %d acknowledgements of the NoWait batch %v were left unread by the WaitForPendingACKs calls", op, len(k.Queue), errnos)
+	}
+	hC08.Class("op-after-nowait-batch")
+	return nil
+}
+
 func propC08(c C08Case) error {
 	k := simk.New(c.StartSeq)
 	cl := &libaudit.AuditClient{Netlink: k}
 	nontrivial := false
 	for i, o := range c.Ops {
+		if len(o.Batch) > 0 {
+			if err := noWaitBatch(k, cl, o.Batch, i); err != nil {
+				return err
+			}
+		}
 		scripted(k, o)
 		sentBefore := len(k.Sent)
 		var err error
